@@ -114,6 +114,54 @@ func checkC16(e *Engine, r *Report) {
 			okS = mustPass(save, ws[0], gs) && ks.HasCall(specKey) && hasFieldLoad(ks, "ProofExternalOwnedAccount", "Account")
 		}
 		r.Check(okS, "SaveProof › validated proof under the account's key", e.Pos(save.Pos()), "proof.ValidateBasic() == nil; key = KeyProof…(proof.Account)", "SaveProofExternalOwnedAccount writes an unvalidated proof or under a key not derived from the proof's account")
+		// HasProof answers "is there a record under this account's key" and nothing else: the finality guard of the message server
+		// and the vesting gate both rely on it, so a further condition (comparing stored text with the queried address, say)
+		// makes an existing proof invisible — and overwritable
+		{
+			has := e.Fn(pkgVauthKeeper, "Keeper.HasProofExternalOwnedAccount")
+			okHas := len(returnsOf(has)) > 0
+			for _, ret := range returnsOf(has) {
+				v := resolveLocal(ret.Results[0])
+				exact := false
+				keySlice := func(x ssa.Value) bool {
+					ks := backSlice(x, SliceOpts{ThroughCallArgs: alwaysThrough, IntoCallees: privHelper(pkgVauthKeeper), Depth: 2})
+					for _, kc := range ks.Calls() {
+						if isCallTo(kc, specKey) && argReaches(ks, kc, 0, ssa.Value(has.Params[2]), 2) {
+							return true
+						}
+					}
+					return false
+				}
+				if c, isC := v.(*ssa.Call); isC && c.Call.IsInvoke() && c.Call.Method.Name() == "Has" && len(c.Call.Args) == 1 && keySlice(c.Call.Args[0]) {
+					exact = true // store.Has(key)
+				}
+				if b, isB := v.(*ssa.BinOp); isB && (b.Op == token.NEQ || b.Op == token.GTR) {
+					// Get…(ctx, addr) != nil   |   len(store.Get(key)) > 0
+					x := b.X
+					if lc, _ := callOf(x); lc != nil {
+						if bi, isBi := lc.Call.Value.(*ssa.Builtin); isBi && bi.Name() == "len" {
+							x = lc.Call.Args[0]
+						}
+					}
+					if gc, _ := callOf(x); gc != nil {
+						zero := isNilConst(b.Y)
+						if k, isK := constInt(b.Y); isK && k == 0 {
+							zero = true
+						}
+						if zero && gc.Call.IsInvoke() && gc.Call.Method.Name() == "Get" && len(gc.Call.Args) == 1 && keySlice(gc.Call.Args[0]) {
+							exact = true
+						}
+						if zero && isCallTo(gc, CallSpec{pkgVauthKeeper, "Keeper", "GetProofExternalOwnedAccount"}) && resolveLocal(argOf(gc, 1)) == ssa.Value(has.Params[2]) {
+							exact = true
+						}
+					}
+				}
+				if !exact {
+					okHas = false
+				}
+			}
+			r.Check(okHas, "HasProof › true exactly when a record exists under the account's key", e.Pos(has.Pos()), "store.Has(KeyProof…(accAddr))", "HasProofExternalOwnedAccount is not simply the existence of the record under the account's key (an extra condition can hide an existing proof): a proven address can be proved again and its proof overwritten, burning the fee again")
+		}
 		// who may call / key users
 		for _, cs := range e.repoCallSites(func(c ssa.CallInstruction) bool { return isCallTo(c, specSave) }) {
 			r.Check(topFn(cs.Fn) == sub, "who stores proofs › "+fnKey(cs.Fn), e.Pos(cs.Call.Pos()), "only the message server", "a proof is stored from code that does not run the fee/validation path")
